@@ -35,7 +35,7 @@ PROP = {
             "^TestVerifC03", ["frag-feedseq", "frag-split"], race=True,
             timeout_quick=600, timeout_thorough=3600),
         job("server", "core", "./server/", "server", _files("core/server", "c03_udp_test.go"),
-            "^TestVerifC03", ["srv-feed", "srv-reply", "srv-run"], race=True,
+            "^TestVerifC03", ["srv-feed", "srv-reply", "srv-loop", "srv-run"], race=True,
             timeout_quick=600, timeout_thorough=3600),
         job("client", "core", "./client/", "client", _files("core/client", "c03_udp_test.go"),
             "^TestVerifC03", ["cli-feed", "cli-run", "cli-send", "cli-tcpresp"], race=True,
@@ -55,7 +55,7 @@ PROP = {
             "^TestVerifC03", ["realm-punch", "realm-stun", "realm-conn"], race=True,
             timeout_quick=600, timeout_thorough=3600),
         job("speedtest", "extras", "./outbounds/speedtest/", "speedtest", _files("extras/outbounds/speedtest", "c03_speedtest_test.go"),
-            "^TestVerifC03", ["spd-server", "spd-client"], race=False,
+            "^TestVerifC03", ["spd-server", "spd-pipe", "spd-client"], race=False,
             timeout_quick=600, timeout_thorough=3600),
         # ---- thorough: native fuzz targets, one per invocation
         _fuzz("fuzz-proto-udpmsg", "core", "./internal/protocol/", "protocol", "core/internal/protocol", ["c03_decoders_test.go"],
